@@ -2,12 +2,13 @@ import Proofs.SeriesP
 import Proofs.Series2
 import Proofs.ExpReal
 import Proofs.TrigReal
+import Proofs.HypReal
 
 /-! # C16 — series functions on blades with scalar square, scalars, and the scaling-and-squaring structure
 
 Any ℚ-algebra `A` (so: every dimension and signature). `expTrunc N X = Σ_{k<N} X^k/k!` is what the loop of
 `taylor_expansions.exp` accumulates (N = max_order = 15) on the scaled argument before the repeated squarings.
-The closeness of the N-term polynomials to the real functions is proved **on scalars** (`exp` with its scaling and squaring, `cos`, `sin`:
+The closeness of the N-term polynomials to the real functions is proved **on scalars** (`exp` with its scaling and squaring, `cos`, `sin`, `cosh`, `sinh`:
 Mathlib's remainder bounds for the complex exponential series); on blades it is the same scalar statement for the polynomials `C_N(s)`, `S_N(s)` of
 `exp_on_blade`; for general multivectors it is analytic and compared with the exact series / libm by the correspondence check (relative 1e-6), not proved. -/
 
@@ -87,5 +88,11 @@ theorem exp_on_scalar_matches_real_exp (c : ℚ) (j : Nat) (hj : j ≤ 18) (hy :
 theorem cos_sin_on_scalar_match_real (c : ℝ) (hc : |c| ≤ 8) :
     |Real.cos c - TrigReal.cosTrunc 30 c| ≤ 1 / 1000000000000 ∧ |Real.sin c - TrigReal.sinTrunc 30 c| ≤ 1 / 1000000000000 :=
   TrigReal.cos_sin_within_tolerance c hc
+
+/-- **`cosh` and `sinh` on a scalar**: the unscaled 30-term series (`Σ_{k<30} c^{2k}/(2k)!`, `Σ_{k<30} c^{2k+1}/(2k+1)!`) are within `10⁻¹²` of
+    `Real.cosh c`, `Real.sinh c` for every real `|c| ≤ 8` (general form: `HypReal.cosh_sinh_close`, from the two exponential series at `±c`) -/
+theorem cosh_sinh_on_scalar_match_real (c : ℝ) (hc : |c| ≤ 8) :
+    |Real.cosh c - HypReal.coshTrunc 30 c| ≤ 1 / 1000000000000 ∧ |Real.sinh c - HypReal.sinhTrunc 30 c| ≤ 1 / 1000000000000 :=
+  HypReal.cosh_sinh_within_tolerance c hc
 
 end C16
